@@ -560,6 +560,8 @@ pub(crate) static mut WENV: WEnv = WEnv { storage: None, storage_addr: 0, budget
 /// Scripts: what other writers do to the stored pointer, and when, relative to the call's own
 /// accesses of the storage. Action codes: 0 nothing, 1..=3 a complete foreign swap that stores pool
 /// object (code-1), 9 the value is replaced and put back (A-B-A on the identity).
+/// (Kept in scalar statics: CBMC folds reads of those; it does not fold reads of array fields of
+/// a struct that was copied by value.)
 #[derive(Clone, Copy)]
 pub(crate) struct Script {
     /// before the n-th access of the call to the storage (any kind), n = 0..6
@@ -572,11 +574,23 @@ pub(crate) struct Script {
     pub at_load: [u8; 4],
 }
 pub(crate) const NO_SCRIPT: Script = Script { at_access: [0; 6], at_cas: [0; 2], after_cas: [0; 2], at_load: [0; 4] };
+static mut S_ACC: (u8, u8, u8, u8, u8, u8) = (0, 0, 0, 0, 0, 0);
+static mut S_CAS: (u8, u8) = (0, 0);
+static mut S_AFTER: (u8, u8) = (0, 0);
+static mut S_LOAD: (u8, u8, u8, u8) = (0, 0, 0, 0);
 static mut LOAD_NO: usize = 0;
-pub(crate) static mut SCRIPT: Script = NO_SCRIPT;
 static mut ACCESS_NO: usize = 0;
 static mut CAS_NO: usize = 0;
 static mut AFTER_CAS_PENDING: usize = 9;
+
+pub(crate) fn set_script(sc: Script) {
+    unsafe {
+        S_ACC = (sc.at_access[0], sc.at_access[1], sc.at_access[2], sc.at_access[3], sc.at_access[4], sc.at_access[5]);
+        S_CAS = (sc.at_cas[0], sc.at_cas[1]);
+        S_AFTER = (sc.after_cas[0], sc.after_cas[1]);
+        S_LOAD = (sc.at_load[0], sc.at_load[1], sc.at_load[2], sc.at_load[3]);
+    }
+}
 
 fn wenv_do(action: u8) {
     if action == 0 {
@@ -587,11 +601,10 @@ fn wenv_do(action: u8) {
     e.used += 1;
     let cur_ptr = st.raw().load(core::sync::atomic::Ordering::SeqCst);
     if action == 9 {
-        let cur = model::index_of(cur_ptr as usize).unwrap();
-        let other = (cur + 1) % model::POOL;
+        // replaced by some other value and put back (the other value is o1 unless o1 is stored)
+        let other = if cur_ptr == model::ptr(1) as *mut Obj { 2 } else { 1 };
         unsafe { model::LEDGER.cnt[other] += 1 };
         st.raw().store(model::ptr(other) as *mut Obj, core::sync::atomic::Ordering::SeqCst);
-        unsafe { model::LEDGER.cnt[cur] += 1 };
         st.raw().store(cur_ptr, core::sync::atomic::Ordering::SeqCst);
     } else {
         let q = (action - 1) as usize;
@@ -606,29 +619,44 @@ fn wenv_before(ev: &crate::verif::Event) {
     if ev.addr != e.storage_addr {
         return;
     }
-    let sc = unsafe { SCRIPT };
     let n = unsafe { ACCESS_NO };
     unsafe { ACCESS_NO += 1 };
-    if n < 6 {
-        wenv_do(sc.at_access[n]);
-    }
+    let a = unsafe {
+        match n {
+            0 => S_ACC.0,
+            1 => S_ACC.1,
+            2 => S_ACC.2,
+            3 => S_ACC.3,
+            4 => S_ACC.4,
+            5 => S_ACC.5,
+            _ => 0,
+        }
+    };
+    wenv_do(a);
     let pending = unsafe { AFTER_CAS_PENDING };
     if pending < 2 {
-        wenv_do(sc.after_cas[pending]);
+        wenv_do(unsafe { if pending == 0 { S_AFTER.0 } else { S_AFTER.1 } });
         unsafe { AFTER_CAS_PENDING = 9 };
     }
     if ev.op == crate::verif::Op::Load {
         let k = unsafe { LOAD_NO };
         unsafe { LOAD_NO += 1 };
-        if k < 4 {
-            wenv_do(sc.at_load[k]);
-        }
+        let a = unsafe {
+            match k {
+                0 => S_LOAD.0,
+                1 => S_LOAD.1,
+                2 => S_LOAD.2,
+                3 => S_LOAD.3,
+                _ => 0,
+            }
+        };
+        wenv_do(a);
     }
     if ev.op == crate::verif::Op::CasWeak || ev.op == crate::verif::Op::Cas {
         let k = unsafe { CAS_NO };
         unsafe { CAS_NO += 1 };
         if k < 2 {
-            wenv_do(sc.at_cas[k]);
+            wenv_do(unsafe { if k == 0 { S_CAS.0 } else { S_CAS.1 } });
             unsafe { AFTER_CAS_PENDING = k };
         }
         e.pre_cas = e.storage.unwrap().raw().load(core::sync::atomic::Ordering::SeqCst) as usize;
@@ -661,7 +689,7 @@ fn rg_cas(pattern: usize, script: Script, occ: u8) {
     let (stored, cur, new) = CAS_PATTERNS[pattern];
     let (s, _pre, _node) = setup_occ::<DefaultConfig>(stored, occ);
     let h = fresh_handle(new);
-    unsafe { SCRIPT = script };
+    set_script(script);
     wenv_install(&s, 2);
     let w_write = model::watch(model::K_WRITE, storage_addr(&s));
     let w_cas = model::watch(model::K_CAS_ANY, storage_addr(&s));
@@ -711,10 +739,8 @@ fn rcu_closure_distinct(cur: &TP) -> TP {
 fn rg_rcu(script: Script, occ: u8) {
     let stored = 0usize;
     let (s, _pre, _node) = setup_occ::<DefaultConfig>(stored, occ);
-    unsafe {
-        G_CALLS = 0;
-        SCRIPT = script;
-    }
+    unsafe { G_CALLS = 0 };
+    set_script(script);
     let c_before = [model::cnt(0), model::cnt(1), model::cnt(2)];
     wenv_install(&s, 2);
     let w_write = model::watch(model::K_WRITE, storage_addr(&s));
@@ -1075,6 +1101,7 @@ pub(crate) fn rg_rcu_lost_twice() {
 #[cfg_attr(kani, kani::stub(crate::debt::Node::traverse, crate::debt::verif_h::list_h::traverse_unrolled3))]
 #[cfg_attr(kani, kani::stub(crate::debt::LocalNode::with, crate::debt::verif_h::list_h::with_static))]
 #[cfg_attr(kani, kani::stub(crate::debt::Node::get, crate::debt::verif_h::list_h::node_get_unexpected))]
+#[cfg_attr(kani, kani::stub(crate::debt::LocalNode::help, crate::debt::verif_h::list_h::help_contract))]
 #[cfg_attr(kani, kani::unwind(12))]
 pub(crate) fn solo_store_helps_two_readers() {
     let (s, _pre, _mine) = setup_occ::<DefaultConfig>(0, OCC_FULL);
@@ -1088,7 +1115,7 @@ pub(crate) fn solo_store_helps_two_readers() {
     list_h::poke_control(reader_b, 16 | helping_h::C_GEN_TAG);
     // the writer stores object 1; before the third load of the storage by the writer (= the load it
     // makes for the second reader it meets) another writer stores object 2
-    unsafe { SCRIPT = Script { at_access: [0; 6], at_cas: [0; 2], after_cas: [0; 2], at_load: [0, 0, 3, 0] } };
+    set_script(Script { at_access: [0; 6], at_cas: [0; 2], after_cas: [0; 2], at_load: [0, 0, 3, 0] });
     wenv_install(&s, 1);
     s.store(fresh_handle(1));
     hooks_off();
